@@ -134,6 +134,12 @@ def collect (so : List SortSpec) (size skip : Nat) (after : Option Match) (ms : 
     total := ms.length,
     maxScore := ms.foldl (fun m d => if d.score > m then d.score else m) 0 }
 
+/-- `SearchBefore` as index_impl.go executes it: reverse every sort key, run as search-after with
+    `From` ignored, then re-sort the page with the original order -/
+def searchBefore (so : List SortSpec) (size : Nat) (before : Match) (ms : List Match) : Result :=
+  let r := collect (so.map SortSpec.reverse) size 0 (some before) ms
+  { r with hits := TopN.isort (lt so) r.hits }
+
 /-- raw stream element before preparation -/
 structure Raw where
   score : Int
